@@ -152,7 +152,7 @@ def stamps_correspondence(ctx):
     clk = Clk()
     sched_mod.time = clk
     try:
-        for k in range(ctx.scale(250, 2000)):
+        for k in range(ctx.scale(160, 2000)):
             steps, evs = gen_history(rng, rng.randint(3, 30))
             pairs = [(p, c) for p in steps for c in steps]
             s = Scheduler(None, db=None)
@@ -1207,7 +1207,9 @@ def oracle(ctx):
 
 def search(ctx):
     _guarded(ctx, "refreshed", refreshed_correspondence)      # fresh draws of the file-system histories
-    checks, descr, fails = run_consumer_cases(ctx, 1500, big=True)
+    # only reached when an obligation or the translator broke and nothing above gave a witness; the
+    # quick tier must stay cheap under load (20 checks share the machine): 400 cases, not 1500
+    checks, descr, fails = run_consumer_cases(ctx, ctx.scale(400, 1500), big=True)
     report(ctx, fails)
     bad = common.run_cases(ctx, "search", HEADER, checks, chunk=40)
     for i in bad[:3]:
